@@ -8,6 +8,7 @@ import importlib
 GENS = {  # Gen file -> (module, function)
     "ParamsGen": ("gen_params", "generate"),
     "AssemblyGen": ("gen_assembly", "generate"),
+    "StochGen": ("gen_stoch", "generate"),
 }
 
 
